@@ -1,4 +1,5 @@
 """C19  Every clang_delta transformation follows the counter protocol."""
+import os
 import re
 
 from vlib import coq
@@ -77,10 +78,89 @@ def explore(ctx):
                               {'function': 'Transformation::checkCounterValidity', 'counter_oob': c_, 'to_counter_oob': t_, 'warn': w_})
     except Exception:
         pass        # a translator failure is reported by the generator stage
+    counter_arguments(ctx)
     try:
         sensitivity(ctx)
     except Exception as e:      # evidence only
         ctx.extra['extractor_sensitivity'] = {'error': repr(e)[:500]}
+
+
+
+ARG_VALUES = ['1', '2', '7', '0', '-1', '-3', '+4', '007', '5x', ' 7', '\t9', '7 ', '0x10', '', 'abc', '-', '+', '- 4', '+-4', '--4', '1e3', '1.5',
+              '2147483646', '2147483647', '2147483648', '2147483649', '-2147483648', '-2147483649', '4294967295', '4294967296', '4294967297',
+              '4294967298', '8589934593', '9223372036854775807', '9223372036854775808', '18446744073709551617', '99999999999999999999999',
+              '-4294967295', '-4294967297', '00000000000000000000003', '12,5', '3\n', '\n3']
+
+
+def build_argparser(ctx):
+    """clang_delta/ClangDelta.cpp (the command-line parser and main) compiled VERBATIM against stand-in headers
+    (tools/standins/cxxstubs): the stand-in manager prints the counters the parser handed over"""
+    import shutil
+    import subprocess
+    repo = os.environ.get('VERIF_REPO', '/repo')
+    stubs = os.path.join(os.path.dirname(os.path.dirname(os.path.abspath(__file__))), 'standins', 'cxxstubs')
+    d = os.path.join(ctx.tmp, 'argparser')
+    os.makedirs(d, exist_ok=True)
+    shutil.copy(os.path.join(repo, 'clang_delta', 'ClangDelta.cpp'), os.path.join(d, 'ClangDelta.cpp'))
+    m = re.search(r'int\s+TransformationManager::ErrorInvalidCounter\s*=\s*(-?\d+)\s*;', open(os.path.join(repo, 'clang_delta', 'TransformationManager.cpp')).read())
+    if not m:
+        return None, 'TransformationManager::ErrorInvalidCounter not found'
+    with open(os.path.join(d, 'consts.cpp'), 'w') as f:
+        f.write('#include "TransformationManager.h"\nint TransformationManager::ErrorInvalidCounter = %s;\n' % m.group(1))
+    r = subprocess.run(['g++', '-std=c++17', '-O0', '-w', '-iquote', stubs, '-I', stubs, '-o', 'argp', 'ClangDelta.cpp', 'consts.cpp'], cwd=d, capture_output=True, text=True, timeout=300)
+    if r.returncode != 0:
+        return None, r.stderr[-1500:]
+    return os.path.join(d, 'argp'), int(m.group(1))
+
+
+def run_argparser(exe, which, value):
+    import subprocess
+    args = [exe, '--transformation=x', f'--{which}={value}', 'f.c'] if which == 'counter' else [exe, '--transformation=x', '--counter=1', f'--{which}={value}', 'f.c']
+    r = subprocess.run(args, capture_output=True, text=True, timeout=20)
+    m = re.search(r'PARSED counter=(unset:)?(-?\d+) to-counter=(unset:)?(-?\d+)', r.stdout)
+    if m:
+        return ('ok', int(m.group(2)) if which == 'counter' else int(m.group(4))), r
+    return ('die', r.returncode), r
+
+
+def denoted(value):
+    """the integer a decimal argument denotes (optional blanks, optional sign, digits; what follows is ignored), or None"""
+    m = re.match(r'[ \t\n\v\f\r]*([+-]?)([0-9]+)', value)
+    if not m:
+        return None
+    return (-1 if m.group(1) == '-' else 1) * int(m.group(2))
+
+
+def counter_arguments(ctx):
+    exe, info = build_argparser(ctx)
+    if exe is None:
+        ctx.broke('translator', 'clang_delta/ClangDelta.cpp against the stand-in manager', f'cannot build the command-line parser: {info}')
+        return
+    cases = []
+    for which in ('counter', 'to-counter'):
+        for v in ARG_VALUES:
+            got, r = run_argparser(exe, which, v)
+            ctx.evaluations += 1
+            ctx.count('command-line:--' + which)
+            d = denoted(v)
+            rep = {'argument': f'--{which}={v}', 'kind': 'argv'}
+            if got[0] == 'ok':
+                ctx.nontriv(('argv', which, v))
+                if d is None or got[1] != d:
+                    ctx.violation('counter-argument-misread', f'clang_delta --{which}={v!r}: the transformation is handed {got[1]}' +
+                                  (f'; the argument denotes {d}' if d is not None else '; the argument is not a number') +
+                                  ' (a counter beyond the number of instances can look like a valid one)', rep)
+            elif d is not None and -2 ** 31 <= d < 2 ** 31:
+                ctx.violation('counter-argument-refused', f'clang_delta --{which}={v!r} is refused (exit {got[1]}) although it denotes {d}', rep)
+            elif got[1] != info % 256:
+                ctx.violation('counter-argument-wrong-exit', f'clang_delta --{which}={v!r}: refused with exit {got[1]}, the invalid-counter exit is {info}', rep)
+            enc = '[' + ';'.join(str(ord(ch)) for ch in v) + ']%N' if v else '(@nil N)'
+            cases.append((enc, [1, got[1]] if got[0] == 'ok' else [0]))
+    bad = coq.corr_eval('c19argv', ['From Coq Require Import List NArith ZArith.', 'Import ListNotations.', 'From CV Require Import Base.Corr ClangDelta.ArgParse.'], 'argv_case', cases, shard=200)
+    ctx.corr_cases += len(cases)
+    ctx.corr_disagree += len(bad)
+    for b in bad[:5]:
+        ctx.broke('correspondence', 'counter argument parser (ClangDelta.cpp) vs ArgParse.parse_counter', f'argument {ARG_VALUES[b % len(ARG_VALUES)]!r}: implementation {cases[b][1]}')
 
 
 def sensitivity(ctx):
